@@ -901,28 +901,28 @@ def gen_SfFacts():
     sf = Src(os.path.join(REPO, "utils/src/singleflight.rs"))
     er = Src(os.path.join(REPO, "utils/src/errors.rs"))
     out = [PRELUDE]
-    cp = sf.fn_body("complete")
-    seq = ["let mut val = self.res.write();", "*val = Some(res);", "self.nt.notify_waiters();"]
-    pos = [cp.find(x) for x in seq]
-    if -1 in pos or pos != sorted(pos):
-        raise TranslateError("Call::complete: store-then-notify under the write lock changed")
-    gf = sf.fn_body("get_future")
-    seq = ["let res = self.res.read();", "if let Some(result) = res.clone() {", "Either::Left(async move { result })", "let notified = self.nt.notified();",
-           "Either::Right(async move { notified.await; self.get() })"]
-    pos = [gf.find(x) for x in seq]
-    if -1 in pos or pos != sorted(pos):
-        raise TranslateError("Call::get_future: check-or-register under the read lock changed")
-    if "res.clone().unwrap_or(Err(SingleflightError::NoResult))" not in sf.fn_body("get"):
-        raise TranslateError("Call::get changed")
-    wk = sf.fn_body("work")
-    seq = ["let (call, created) = self.get_call_or_create(key).await;", "let results_future = call.get_future();", "if created {",
-           "let owner_task = OwnerTask::new(fut, call.clone());", "let owner_handle = Handle::current().spawn(owner_task);",
-           "let (handle_result, future_result) = tokio::join!(owner_handle, results_future);",
-           "let result = handle_result .map_err(|e| SingleflightError::JoinError(e.to_string())) .and(future_result);",
-           "if let Err(e) = self.remove_call(key).await { return (Err(e), true); } (result, true)", "} else { (results_future.await, false) }"]
-    pos = [wk.find(x) for x in seq]
-    if -1 in pos or pos != sorted(pos):
-        raise TranslateError("Group::work: sequence of actions changed (%r)" % pos)
+    # exact bodies (debug! statements aside): an action that became conditional, or a new use of the waiter counter (a u16
+    # that wraps at 65536 callers and must stay a statistic), is a changed action
+    def body(name):
+        return " ".join(re.sub(r'debug!\("(?:[^"\\]|\\.)*"(?:, [^;]*)?\);', "", sf.fn_body(name)).split())
+    exact = {
+        "complete": ("let mut val = self.res.write(); *val = Some(res); self.nt.notify_waiters(); let num_waiters = self.num_waiters.load(Ordering::SeqCst);",
+                     "Call::complete: store-then-notify under the write lock changed"),
+        "get_future": ("let res = self.res.read(); if let Some(result) = res.clone() { Either::Left(async move { result }) } else { self.num_waiters.fetch_add(1, Ordering::SeqCst); "
+                       "let notified = self.nt.notified(); Either::Right(async move { notified.await; self.get() }) }",
+                       "Call::get_future: check-or-register under the read lock changed"),
+        "get": ("let res = self.res.read(); res.clone().unwrap_or(Err(SingleflightError::NoResult))", "Call::get changed"),
+        "work": ("let (call, created) = self.get_call_or_create(key).await; let results_future = call.get_future(); if created { let owner_task = OwnerTask::new(fut, call.clone()); "
+                 "let owner_handle = Handle::current().spawn(owner_task); let (handle_result, future_result) = tokio::join!(owner_handle, results_future); "
+                 "let result = handle_result .map_err(|e| SingleflightError::JoinError(e.to_string())) .and(future_result); "
+                 "if let Err(e) = self.remove_call(key).await { return (Err(e), true); } (result, true) } else { (results_future.await, false) }",
+                 "Group::work: sequence of actions changed"),
+    }
+    for name, (want, msg) in exact.items():
+        if body(name) != want:
+            raise TranslateError(msg)
+    if len(re.findall(r"\bnum_waiters\b", sf.flat.split("#[cfg(test)]")[0])) != 6:
+        raise TranslateError("the waiter counter of Call is used in a new place")
     gc = sf.fn_body("get_call_or_create")
     if "let mut m = self.call_map.lock().await; if let Some(c) = m.get(key).cloned() { (c, false) } else { let c = Arc::new(Call::new()); let our_call = c.clone(); m.insert(key.to_owned(), c); (our_call, true) }" not in gc:
         raise TranslateError("get_call_or_create changed")
@@ -954,7 +954,9 @@ def gen_ReconFacts():
         if p_ not in sq:
             raise TranslateError("reconstruct_file_to_writer changed: %r" % p_)
     pr = rc.fn_body("reconstruct_file_to_writer_parallel")
-    for p_ in ["let start = if idx == 0 { offset_into_first_range as usize } else { 0 }; let end = min(start as u64 + remaining, term.unpacked_length as u64) as usize; let file_offset = bytes_written; let len = (end - start) as u64; bytes_written += len; remaining -= len;",
+    for p_ in ["let total_len = if let Some(range) = byte_range { range.end - range.start } else { terms.iter().fold(0, |acc, x| acc + x.unpacked_length as u64) };",
+               "let mut bytes_written = 0; let mut remaining = total_len;", "let mut total_written = 0;",
+               "let start = if idx == 0 { offset_into_first_range as usize } else { 0 }; let end = min(start as u64 + remaining, term.unpacked_length as u64) as usize; let file_offset = bytes_written; let len = (end - start) as u64; bytes_written += len; remaining -= len;",
                "task.write_term(term, start..end, file_offset)", "total_written += len_written;", "Ok(total_written)"]:
         if p_ not in pr:
             raise TranslateError("reconstruct_file_to_writer_parallel changed: %r" % p_)
